@@ -65,8 +65,10 @@ def status (P : List Nat → Nat) (H3 : Nat → Nat → Nat → Nat) (answer : E
 
 /-- IssuerResolver.Resolve: an answer only for a 2xx response whose body is below the limit and parses -/
 def httpLimit : Nat := 16 * 1024
+def httpLo : Nat := 200
+def httpHi : Nat := 300
 def httpStatus (code bodyLen : Nat) (parses : Bool) : Bool :=
-  200 ≤ code && code < 300 && bodyLen < httpLimit && parses
+  httpLo ≤ code && code < httpHi && bodyLen < httpLimit && parses
 
 /-- the DID resolver's answer: an error, a document without state info, or the `published` member -/
 inductive Resolved
